@@ -64,7 +64,7 @@ func (a Int32) ConvertConstScalar(t ScalarType) ConstScalar {
   case Int32Type:
     return a
   default:
-    return NewConstScalar(t, a.GetFloat64())
+    return convertConstScalar(a, t)
   }
 }
 func (a Int32) ConvertScalar(t ScalarType) Scalar {
